@@ -278,3 +278,43 @@ def _oi_result(c, cx, **p):
 
 
 on_interest.result = _oi_result
+
+
+# ----------------------------------------------------------------------------- the hand-assembled PIT-token envelope (backup path)
+@contract
+class put_with_token_nocopy(Contract):
+    fn = appv2.NDNApp._put_raw_packet_with_pit_token_nocopy
+    props = ('C10',)
+    doc = ('_put_raw_packet_with_pit_token_nocopy: refused with NetworkError when the face is down; otherwise exactly two buffers are '
+           'handed to the face, a header 64 L (62 |t| t) 50 |d| followed by the Data itself, so that their concatenation is the same '
+           'envelope the copying variant produces (L covers the token element, the fragment header and the Data)')
+    raises = {types.NetworkError: lambda cx, self, data, pit_token: Not(self.d['face'].running)}
+    exact_raises = True
+
+    def setup(self, cx):
+        run = cx.run
+        data = run.input_buf('data', 'bytes')
+        tok_ = run.input_buf('pit_token', 'bytes')
+        run.assume(And(zint(data.length) < 2 ** 16, zint(tok_.length) < 2 ** 16))
+        return dict(self=mk_app(cx), data=data, pit_token=tok_)
+
+    def post(c, cx, result, self, data, pit_token):
+        from contracts.name import bytes_equal
+        face = self.d['face']
+        out = {'two_buffers_sent': len(face.sent) == 2}
+        if len(face.sent) != 2:
+            return out
+        (hdr, h1), (body, h2) = face.sent
+        out['second_buffer_is_the_data_itself'] = body is data
+        if not isinstance(hdr, View):
+            out['header_is_bytes'] = False
+            return out
+        tl, dl = zint(pit_token.length), zint(data.length)
+        inner = 1 + tlsize(tl) + tl + 1 + tlsize(dl) + dl
+        p0 = 1 + tlsize(inner)
+        p1 = p0 + 1 + tlsize(tl)
+        p2 = p1 + tl
+        out['header_layout'] = And(Eq(hdr.length, p2 + 1 + tlsize(dl)), hdr.at(h1, 0) == 0x64, tlenc_at(h1, hdr, 1, inner),
+                                   hdr.at(h1, p0) == 0x62, tlenc_at(h1, hdr, p0 + 1, tl), bytes_equal(h1, hdr, p1, cx.old_heap, pit_token, 0, tl),
+                                   hdr.at(h1, p2) == 0x50, tlenc_at(h1, hdr, p2 + 1, dl))
+        return out
